@@ -514,7 +514,9 @@ func (fr *Frame) builtin(b *ssa.Builtin, common *ssa.CallCommon, args []*Val, st
 			return &Val{T: "(s-len " + a.T + ")", S: "Int"}
 		case *types.Map:
 			_, _, cnt, _, _ := e.mapComps(t)
-			return &Val{T: sIte("(= "+a.T+" 0)", "0", sSel(e.get(st, cnt, "(Array Int Int)"), a.T)), S: "Int"}
+			n := e.define("maplen", "Int", sIte("(= "+a.T+" 0)", "0", sSel(e.get(st, cnt, "(Array Int Int)"), a.T)))
+			e.assume(st.pc, "(and (<= 0 "+n+") (<= "+n+" 17592186044416))")
+			return &Val{T: n, S: "Int"}
 		case *types.Basic:
 			return &Val{T: "(strlen " + a.T + ")", S: "Int"}
 		case *types.Pointer:
